@@ -10,22 +10,28 @@ import vf
 import chaindb as cd
 
 META = {
-    "text": "Theorems (Coq, no axioms) over the executable ChainDB model (addBlock, chainProcessor with orphan resolution, "
-            "executeBlock/connectToChain, side-branch store, gather/rollback/rollforward/swapChain, every durable mutation a write unit): "
-            "the invariant Inv (best is tip of a parent-linked, executable path to genesis; height index maps exactly that path; "
-            "every main-chain tx indexed at its block and position and index entries are sound; receipts for main-chain blocks with txs; "
-            "state root = best root; Latest = best.no; no reorg marker) holds initially and is preserved by add_block for every arriving "
-            "block (valid, invalid, duplicate, orphan, side branch, reorganisation), hence after every history.  The model follows the "
-            "repaired reorg (fixes/F7_reorg_restore_state.diff); for the unrepaired code add_block_inv is refuted with the 3-block witness. "
-            "Hypotheses: block ids are collision-free digests (F8 excluded); for the code without fixes/F27_blockno_zero.diff additionally that no "
-            "arriving block carries BlockNo 0 (refuted otherwise; with the repair no hypothesis on numbers is needed: C05_history_inv_repaired). "
-            "Also proved: findAncestor returns a listed main-chain block; the errBlocks LRU (128) and the orphan pool capacity are modelled. "
-            "The model is tied to /repo on every run: identical observables (best, height->hash, tx->(block,idx), receipts, stored, "
-            "errBlocks, orphan pool, MemPool messages, state root) after every arrival on generated block trees, and Inv is evaluated "
-            "directly on the implementation through the query surface and a raw key scan.",
-    "note": "Trusted: Coq kernel/vm_compute; engine and generator; block execution abstracted as a deterministic function apply with the "
-            "replay-protection property (spent) that C04 establishes; errBlocks LRU (128) and orphan LRU modelled without eviction by "
-            "recency beyond FIFO; consensus stub (SBP-style) supplies the LIB; badger durability below db.DB.",
+    "text": "18 Coq theorems, no axioms, over the executable ChainDB model (addBlock with pre-checks and errBlocks, chainProcessor with "
+            "orphan resolution, executeBlock/connectToChain, side store, gather/rollback/rollforward/swapChain, block-factory path, consensus "
+            "with a WAL; every durable mutation a write unit). FULL: Inv (16 clauses: best is the tip of a parent-linked executable path to "
+            "genesis, height index = exactly that path, tx index complete and sound, receipts, state root = best root, Latest, no marker, "
+            "in-memory system parameters = those of the state) holds at genesis and after every arrival (valid, invalid, duplicate, orphan, "
+            "side branch, reorg of any depth, failed reorg, LIB veto, failed pre-check, own block), hence after every history; getTx "
+            "complete/sound; findAncestor sound/complete; transient rejections leave the node untouched; a block delivered through a WAL "
+            "(body pre-written, skipped or rewritten) keeps Inv while skipping an unstored body breaks it; the next valid child of best is "
+            "accepted; stale parameters reject. REFUTED, both repaired in /repo (F7, F27): Inv for the unrepaired reorg and for BlockNo 0 "
+            "(model flags follow the source). Tie to /repo on every run: engine chaindb (real ChainService on fresh stores, real executor, "
+            "signed transfers and governance txs, scripted consensus stub incl. WAL mode) gives after every arrival the observables (result, "
+            "best, Latest, state root, heights, tx index, receipts, stored, errBlocks, orphans, messages, in-memory parameters) compared by "
+            "vm_compute with the model, plus direct predicates P1-P6 (Inv via queries and raw key scan), P8-P10, P11 (parameters), P12 "
+            "(factory's next child of best accepted). No open finding.",
+    "note": "Trusted: Coq kernel + vm_compute (no axioms); Go toolchain and cgo-free overlay; engine harness/engines/chaindb (+ state, db and "
+            "contract/system shims) and generator/encoder lib/chaindb.py; consensus stub (scripted LIB, VerifyTimestamp/VerifySign, HasWAL "
+            "with raft IsConnectedBlock, CommitParams as dpos). Modelled, not verified: block execution as a deterministic function apply "
+            "with replay protection spent (what C01-C04 establish); system parameters as 'those of root pmem'; execution with stale "
+            "parameters = rejection (worst case). Hypotheses: block ids are honest collision-free digests (F8 excluded); fewer than 128 "
+            "rejected / 100 parked blocks matter only through the modelled FIFO bounds. Outside the model: IsForkEnable()=false (raft Fatal "
+            "on forks), raft log entries, ResetBest, ChainVerifier, the staging slot of contract/system (F47, fixed; corpus case 14 guards "
+            "it). No Inv-over-histories theorem for the WAL configuration with forks (single-step theorems + correspondence).",
     "technique": "Coq invariant proof over Gallina chain-DB model + vm_compute correspondence against real chain.ChainService",
 }
 
@@ -185,7 +191,7 @@ def run(ctx):
                                "engine harness/engines/chaindb + generator lib/chaindb.py", "consensus stub (SBP semantics, scripted LIB)",
                                "apply/spent abstraction of block execution (C01-C04)"]
     ctx.assumptions = ["block identifiers are honest, collision-free digests (hash_field = digest; F8 is g2's finding)",
-                       "an arriving block does not carry BlockNo 0 unless fixes/F27_blockno_zero.diff is applied (known finding %s)" % NO0_KEY,
+                       "for a source tree without the F27 repair (isMainChain height test for BlockNo 0) additionally: no arriving block carries BlockNo 0",
                        "fewer than 128 rejected blocks / 100 parked orphans per history (LRU bounds)"]
     eng = cd.build_engine(ctx)
     f7_fixed = cd.source_has_f7_fix(ctx.repo)
